@@ -533,12 +533,19 @@ fn stake_vectors(tier: &str, rng: &mut StdRng) -> Vec<Vec<u64>> {
     out.push((0..n2).map(|_| rng.random_range(100..2000u64)).collect());
     out.push(eq(40, 1000));
     out.push(pareto(40, rng));
+    // small integer stakes
+    let n3 = rng.random_range(4..=9usize);
+    out.push((0..n3).map(|_| rng.random_range(1..=20u64)).collect());
     if tier != "quick" {
+        // a validator without stake is never a relay / sits at the bottom of every tree
+        let mut z: Vec<u64> = (0..9).map(|_| rng.random_range(100..900u64)).collect();
+        z[4] = 0;
+        out.push(z);
         out.push(eq(7, 3));
         out.push(eq(32, 1000));
         out.push(eq(64, 10));
         out.push(dominant(33, rng));
-        for _ in 0..6 {
+        for _ in 0..12 {
             let n = rng.random_range(2..=40usize);
             let v = match rng.random_range(0..3u32) {
                 0 => pareto(n, rng),
@@ -557,19 +564,32 @@ pub fn run(out_dir: &str, tier: &str, seed: u64) -> anyhow::Result<Value> {
     let stakes = stake_vectors(tier, &mut rng);
     let quick = tier == "quick";
     let mut report = Vec::new();
-    let mut files = serde_json::Map::new();
     for kind in ["rotor", "rotor_fa1", "turbine", "trivial"] {
-        let path = format!("{out_dir}/trace_{kind}.ndjson");
-        let mut rec = Recorder {
-            out: std::io::BufWriter::new(std::fs::File::create(&path)?),
-            events: 0,
-            calls: 0,
-            probes: 0,
-            panics: 0,
-            cfgs: 0,
-            runs: 0,
-            sample: Vec::new(),
+        // the configurations of one kind are spread over `parts` trace files (validated in parallel)
+        let parts = match (kind, quick) {
+            ("turbine", true) => 2,
+            ("turbine", false) => 3,
+            _ => 1,
         };
+        let mut recs = Vec::new();
+        for p in 0..parts {
+            let label = if parts == 1 { kind.to_string() } else { format!("{kind}_{p}") };
+            let path = format!("{out_dir}/trace_{label}.ndjson");
+            recs.push((
+                label,
+                path.clone(),
+                Recorder {
+                    out: std::io::BufWriter::new(std::fs::File::create(&path)?),
+                    events: 0,
+                    calls: 0,
+                    probes: 0,
+                    panics: 0,
+                    cfgs: 0,
+                    runs: 0,
+                    sample: Vec::new(),
+                },
+            ));
+        }
         let mut cfg_id = 0;
         for (k, st) in stakes.iter().enumerate() {
             let n = st.len();
@@ -577,12 +597,14 @@ pub fn run(out_dir: &str, tier: &str, seed: u64) -> anyhow::Result<Value> {
                 continue;
             }
             let ep = Epoch::new(st, &mut rng);
-            let per_slice = if n <= 8 {
-                if quick { 24 } else { TOTAL_SHREDS }
-            } else if quick {
-                (320 / n).clamp(6, 24)
+            // the validation cost per event grows with the number of shreds of a configuration:
+            // moderate blocks, many configurations
+            let per_slice = if quick {
+                if n <= 8 { 24 } else { (320 / n).clamp(6, 24) }
+            } else if n <= 8 {
+                32
             } else {
-                (1600 / n).clamp(16, TOTAL_SHREDS)
+                (640 / n).clamp(10, 32)
             };
             let num_slices = 2;
             let fanouts: Vec<usize> = if kind == "turbine" {
@@ -601,16 +623,17 @@ pub fn run(out_dir: &str, tier: &str, seed: u64) -> anyhow::Result<Value> {
                 vec![0]
             };
             for f in fanouts {
-                scenario(&mut rec, cfg_id, &ep, kind, f, per_slice, num_slices, &mut rng);
+                let rec = &mut recs[cfg_id as usize % parts].2;
+                scenario(rec, cfg_id, &ep, kind, f, per_slice, num_slices, &mut rng);
                 cfg_id += 1;
             }
         }
-        rec.out.flush()?;
-        report.push(json!({"kind": kind, "trace": path, "events": rec.events, "calls": rec.calls,
-                           "probes": rec.probes, "panics": rec.panics, "cfgs": rec.cfgs, "runs": rec.runs,
-                           "samples": rec.sample}));
-        files.insert(kind.to_string(), json!(path));
+        for (label, path, mut rec) in recs {
+            rec.out.flush()?;
+            report.push(json!({"label": label, "kind": kind, "trace": path, "events": rec.events,
+                               "calls": rec.calls, "probes": rec.probes, "panics": rec.panics,
+                               "cfgs": rec.cfgs, "runs": rec.runs, "samples": rec.sample}));
+        }
     }
-    Ok(json!({"model": "dissem", "traces": report, "files": files, "copies": COPIES,
-              "stake_vectors": stakes}))
+    Ok(json!({"model": "dissem", "traces": report, "copies": COPIES, "stake_vectors": stakes}))
 }
